@@ -396,9 +396,11 @@ class DefaultOperatorResolver(OperatorResolver):
                     power_term.factors[0].token or Token(),
                     "The right-hand argument of `**` must be a positive integer.",
                 )
+            # Products of more factors than there are terms repeat themselves.
+            repeats = min(power_value, max(len(arg), 1))
             return OrderedSet(
                 functools.reduce(lambda x, y: x * y, term)
-                for term in itertools.product(*[arg] * int(power_term.factors[0].expr))
+                for term in itertools.product(*[arg] * repeats)
             )
 
         def multistage_formula(
